@@ -104,7 +104,7 @@ def run():
                          "median", "cumsum", "nancumsum", "sort", "argsort", "unique", "nan_to_num"):
                 real = getattr(np, name)
                 if name == "argsort" and len(set(x for x in v if x == x)) != len([x for x in v if x == x]):
-                    continue      # tie order of np.argsort is unspecified (modelled as inconclusive)
+                    continue      # tie order of np.argsort is unspecified (every order is explored by the model)
                 cmp(name, real, real, v)
             finite = not any(math.isinf(e) for e in v)
             for q in (0, 25, 50, 75, 90, 100) if finite else ():
